@@ -18,10 +18,10 @@ Open Scope N_scope.
 Theorem r_ql_quote_ident : forall U,
   py_alnum_hi U 178 = true -> py_dec_hi U 178 = false -> rs_alpha_hi U 178 = false ->
   exists s, ql_ident_dom s = true /\
-    ql_quote_ident U false true false s = s /\ ql_lex1 U (s ++ []) = LexErr.
+    ql_quote_ident U false true false true s = s /\ ql_lex1 U (s ++ []) = LexErr.
 Proof.
   intros U H1 H2 H3. exists [178; 120]. split; [reflexivity|].
-  assert (E : ql_quote_ident U false true false [178; 120] = [178; 120]).
+  assert (E : ql_quote_ident U false true false true [178; 120] = [178; 120]).
   { unfold ql_quote_ident, ql_needs_quoting, py_ident_match, py_word, py_alnum, py_dec.
     cbn. rewrite H1, H2. reflexivity. }
   split; [exact E|].
@@ -46,10 +46,10 @@ Qed.
 Theorem r_ql_quote_ident_num : forall U,
   py_dec_hi U 1635 = true -> rs_alpha_hi U 1635 = false ->
   exists s, ql_ident_dom s = true /\
-    ql_quote_ident U false true true s = s /\ ql_lex1 U (s ++ []) = LexOk (TInt 1) [1635].
+    ql_quote_ident U false true true true s = s /\ ql_lex1 U (s ++ []) = LexOk (TInt 1) [1635].
 Proof.
   intros U H1 H3. exists [49; 1635]. split; [reflexivity|].
-  assert (E : ql_quote_ident U false true true [49; 1635] = [49; 1635]).
+  assert (E : ql_quote_ident U false true true true [49; 1635] = [49; 1635]).
   { unfold ql_quote_ident, ql_needs_quoting, py_ident_match, py_num_match, py_word, py_alnum, py_dec.
     cbn. rewrite H1. reflexivity. }
   split; [exact E|].
